@@ -19,4 +19,10 @@ PROPS = {
         "assumptions": [],
         "out_of_reach": ["bodies of compute_null_space_matrix / row_reduction (torch.linalg.svd, data-dependent nonzero): verified only through the object invariant of every constructed code (ground), not symbolically"],
     },
+    "C04": {
+        "level": "proof",
+        "trusted_base": ["vk.ground exact GF(2) matrix product (closed obligation G.R = I on the matrices the real constructors produced)"],
+        "assumptions": [],
+        "out_of_reach": ["body of compute_right_pseudo_inverse (data-dependent elimination loops on concrete matrices): covered as a ground obligation per constructed code plus through the symbolic client obligation inverse_encode(forward(m)) == m"],
+    },
 }
